@@ -70,6 +70,15 @@ Proof.
     rewrite params_rep_agree. reflexivity.
 Qed.
 
+Lemma imported_decl_agrees : forall s, lower_sig_imported s = lower_sig s.
+Proof.
+  intros s. unfold lower_sig_imported, lower_sig. destruct (negb (ret_is_prim (s_ret s))); reflexivity.
+Qed.
+
+Lemma sig_lowering_is_abi_both : forall s,
+  abi_of_ir (lower_sig s) = abi_of_c (c_sig s) /\ abi_of_ir (lower_sig_imported s) = abi_of_c (c_sig s).
+Proof. intros s. rewrite imported_decl_agrees. split; apply sig_lowering_is_abi. Qed.
+
 (* shape of the published convention, stated on its own (readable spec of c_sig) *)
 Lemma c_sig_shape : forall s,
   length (cs_params (c_sig s)) = length (s_params s) + (if ret_is_prim (s_ret s) then 0 else 1) /\
